@@ -301,8 +301,9 @@ def oracle_C07(hist, config, res, ov, D):
         prev = [(f - 1, i) for i in range(sizes[f - 1])] if f > 0 else []
         now = [(f, j) for j in range(sizes[f])]
         ls = links.get(f, set())
+        ls_known = {(a, b) for (a, b) in ls if (a, b) in ov and (a, b) in D}   # others: reported as frame-skipping links
         if method == "overlap":
-            for (a, b) in ls:
+            for (a, b) in ls_known:
                 if not ov[(a, b)]:
                     fails.append(f"overlap method linked {a}->{b} which do not overlap")
             for b in now:
@@ -314,7 +315,7 @@ def oracle_C07(hist, config, res, ov, D):
             if one_to_one and ls != rel:
                 fails.append(f"overlap relation between frames {f - 1} and {f} is one-to-one ({sorted(rel)}) but links are {sorted(ls)}")
         else:
-            for (a, b) in ls:
+            for (a, b) in ls_known:
                 if D[(a, b)] > md:
                     fails.append(f"distance method linked {a}->{b} at distance {D[(a, b)]!r} > cut-off {md!r}")
             linked_prev = {a for (a, b) in ls}
@@ -460,16 +461,55 @@ def drift_history(rng: random.Random):
     return {"dim": dim, "grid": grid, "times": [0.5 * f for f in range(nf)], "frames": frames}
 
 
-def drift_failures(hist, res):
-    """every track must contain droplets of one physical droplet (same radius) and span all frames"""
-    if res["raised"] or res["tracks"] is None:
+def drift_applicable(hist, config):
+    """Premise of 'droplets that move less than their separation keep their identity', decided exactly
+    (rational arithmetic, periodic metric of the supplied grid): the same physical droplets (identified by
+    their radius) in every frame; between consecutive frames every droplet moves by less than its distance
+    to any other droplet (distance method, and not farther than the cut-off) resp. still overlaps itself and
+    nothing else (overlap method)."""
+    method, md = config
+    frames = hist["frames"]
+    if len(frames) < 2 or not frames[0] or not strictly_increasing(hist["times"]):
+        return False
+    radii = sorted(d[-1] for d in frames[0])
+    if len(set(radii)) != len(radii) or any(sorted(d[-1] for d in fr) != radii for fr in frames):
+        return False
+    idx = [{d[-1]: j for j, d in enumerate(fr)} for fr in frames]
+    for f in range(len(frames) - 1):
+        for r in radii:
+            a = (f, idx[f][r])
+            own = exact_dist2(hist, a, (f + 1, idx[f + 1][r]))
+            if method == "distance" and md is not None and own > Fraction(md) ** 2:
+                return False
+            if method == "overlap" and not own < (2 * Fraction(r)) ** 2:
+                return False
+            for r2 in radii:
+                if r2 == r:
+                    continue
+                cross1 = exact_dist2(hist, a, (f + 1, idx[f + 1][r2]))
+                cross2 = exact_dist2(hist, (f, idx[f][r2]), (f + 1, idx[f + 1][r]))
+                if method == "distance" and not (own < cross1 and own < cross2):
+                    return False
+                if method == "overlap":
+                    s2 = (Fraction(r) + Fraction(r2)) ** 2
+                    if cross1 < s2 or cross2 < s2:
+                        return False
+                    for g in (f, f + 1):   # no overlap within a frame
+                        if exact_dist2(hist, (g, idx[g][r]), (g, idx[g][r2])) < s2:
+                            return False
+    return True
+
+
+def drift_failures(hist, config, res):
+    """under the premise above every track must consist of one physical droplet in all frames"""
+    if res["raised"] or res["tracks"] is None or not drift_applicable(hist, config):
         return []
     fails = []
     nf = len(hist["frames"])
     for tr in res["tracks"]:
         rs = {hist["frames"][f][j][-1] for (_, f, j) in tr}
         if len(rs) != 1 or len(tr) != nf:
-            fails.append(f"droplets drifting across the periodic boundary lost their identity: track {[(f, j) for (_, f, j) in tr]}")
+            fails.append(f"droplets moving less than their separation lost their identity: track {[(f, j) for (_, f, j) in tr]}")
     return fails
 
 
@@ -731,8 +771,7 @@ def process(item):
             fs = oracle_C06(hist, cfg, res, ov)
         else:
             fs = oracle_C07(hist, cfg, res, ov, D)
-            if kind == "drift" and hist["grid"] is not None:
-                fs += drift_failures(hist, res)
+            fs += drift_failures(hist, cfg, res)
         for f in fs:
             fails.append((cfg, f))
     if pid == "C07":
@@ -822,13 +861,16 @@ def record_violations(ctx, pid, items, results, limit=4):
     seen = set()
     for item, r in zip(items, results):
         for cfg, f in r["fails"]:
-            sig = (cfg[0], f.split(":")[0][:40])
+            sig = (cfg[0], "".join(ch for ch in f.split(":")[0] if not ch.isdigit())[:40])
             if sig in seen or len(ctx.violations) >= limit:
                 continue
             seen.add(sig)
             small = shrink(item["hist"], cfg, pid, item["kind"])
             rr = process(mkitem(small, [cfg], pid, item["kind"], full=not strictly_increasing(small["times"])))
             what = rr["fails"][0][1] if rr["fails"] else f
+            if any(v["what"] == what and v["input"]["history"] == small and v["input"]["config"] == list(cfg)
+                   for v in ctx.violations):
+                continue
             ctx.violations.append({"what": what, "input": {"history": small, "config": list(cfg), "kind": item["kind"]},
                                    "found": True, "broken": ctx.broken[:3]})
 
